@@ -42,6 +42,8 @@ pub enum Action {
     Clamp(u64),
     /// do not execute the call; answer 0 (for FICLONE: after making dest content equal source)
     EmulateOk,
+    /// hold the thread at this call (it is not runnable) until no other thread can run: one stalled thread
+    Hold,
 }
 
 #[derive(Clone, Debug, Serialize, Deserialize, PartialEq)]
@@ -222,6 +224,9 @@ pub struct Launch {
     pub slot: usize,
     /// drop to this (uid, gid) before exec
     pub run_as: Option<(u32, u32)>,
+    /// file-relative addresses of instructions to stop before (atomic read-modify-write instructions of the
+    /// program's own code): each becomes a decision point. Empty = system-call grain only.
+    pub breakpoints: Vec<u64>,
 }
 
 // ---------------------------------------------------------------------------------------------
@@ -289,6 +294,8 @@ enum St {
     Running,
     Ready,
     Blocked { addr: u64, timed: bool, seq: u64 },
+    /// parked by a Hold action: released when nothing else is runnable
+    Held,
     Dead,
 }
 
@@ -306,6 +313,8 @@ struct Th {
     yielded: bool,
     skip_ret: Option<i64>,
     reaped: bool,
+    /// stopped before the atomic instruction at this runtime address
+    at_bp: Option<u64>,
 }
 
 #[derive(Debug, Clone)]
@@ -335,6 +344,7 @@ enum Stop {
     Syscall,
     Event(i32),
     Signal(i32),
+    Breakpoint(u64),
 }
 
 pub struct Sup<'a> {
@@ -362,6 +372,9 @@ pub struct Sup<'a> {
     kernel_blocked: Option<String>,
     cwd_rel: String,
     stash: HashMap<Pid, i32>,
+    /// runtime address -> original first byte of the instruction
+    bps: HashMap<u64, u8>,
+    base: u64,
 }
 
 macro_rules! bail {
@@ -819,9 +832,69 @@ impl<'a> Sup<'a> {
             Ok(Stop::Syscall)
         } else if sig == libc::SIGTRAP && event != 0 {
             Ok(Stop::Event(event))
+        } else if sig == libc::SIGTRAP && !self.bps.is_empty() {
+            let regs = getregs(tid)?;
+            if self.bps.contains_key(&(regs.rip.wrapping_sub(1))) {
+                Ok(Stop::Breakpoint(regs.rip - 1))
+            } else {
+                Ok(Stop::Signal(sig))
+            }
         } else {
             Ok(Stop::Signal(sig))
         }
+    }
+
+    /// after exec: plant a breakpoint before every listed instruction of the program image
+    fn plant_breakpoints(&mut self) -> Result<(), String> {
+        if self.l.breakpoints.is_empty() {
+            return Ok(());
+        }
+        let maps = std::fs::read_to_string(format!("/proc/{}/maps", self.pid)).map_err(|e| format!("read maps: {}", e))?;
+        let exe = std::fs::canonicalize(&self.l.exe).map(|p| p.to_string_lossy().to_string()).unwrap_or(self.l.exe.clone());
+        let mut base = None;
+        for line in maps.lines() {
+            if line.ends_with(&exe) {
+                let f: Vec<&str> = line.split_whitespace().collect();
+                if f.len() >= 3 && f[2] == "00000000" {
+                    base = u64::from_str_radix(f[0].split('-').next().unwrap_or("0"), 16).ok();
+                    break;
+                }
+            }
+        }
+        let base = base.ok_or_else(|| format!("load base of {} not found", exe))?;
+        self.base = base;
+        for off in &self.l.breakpoints {
+            let addr = base + off;
+            let b = self.read_bytes(addr, 1);
+            if b.len() != 1 {
+                bail!("cannot read instruction byte at {:#x}", addr);
+            }
+            self.write_mem(addr, &[0xcc])?;
+            self.bps.insert(addr, b[0]);
+        }
+        Ok(())
+    }
+
+    /// thread i is stopped before an atomic instruction: execute exactly that instruction
+    fn step_over_breakpoint(&mut self, i: usize, idx: usize) -> Result<bool, String> {
+        let addr = match self.th[i].at_bp.take() {
+            Some(a) => a,
+            None => return Ok(true),
+        };
+        let tid = self.th[i].tid;
+        let orig = *self.bps.get(&addr).ok_or("unknown breakpoint")?;
+        self.write_mem(addr, &[orig])?;
+        if ptrace(libc::PTRACE_SINGLESTEP, tid, 0, 0) != 0 {
+            bail!("PTRACE_SINGLESTEP failed: {}", std::io::Error::last_os_error());
+        }
+        let status = self.wait_tid(tid)?;
+        self.write_mem(addr, &[0xcc])?;
+        self.events.push(Ev { idx, th: i, name: "ATOMIC".into(), path: Some(format!("{:#x}", addr - self.base)), path2: None, rel: None, rel2: None, fd: -1, fd2: -1, ino: 0, ino2: 0, a: [0; 6], ret: 0, inj: 0 });
+        if libc::WIFEXITED(status) || libc::WIFSIGNALED(status) {
+            self.thread_died(i, status)?;
+            return Ok(false);
+        }
+        Ok(true)
     }
 
     /// is thread at a syscall-entry stop (1) or exit stop (2)?
@@ -837,7 +910,7 @@ impl<'a> Sup<'a> {
     fn add_thread(&mut self, tid: Pid, path: Vec<u32>, ctid: u64) -> usize {
         let lid = self.th.len();
         let path_s = path_str(&path);
-        self.th.push(Th { tid, path, path_s, nspawned: 0, st: St::Ready, at_entry: false, sysno: -1, args: [0; 6], ctid, yielded: false, skip_ret: None, reaped: false });
+        self.th.push(Th { tid, path, path_s, nspawned: 0, st: St::Ready, at_entry: false, sysno: -1, args: [0; 6], ctid, yielded: false, skip_ret: None, reaped: false, at_bp: None });
         lid
     }
 
@@ -863,6 +936,7 @@ impl<'a> Sup<'a> {
             libc::PTRACE_EVENT_EXEC => {
                 self.mem = std::fs::OpenOptions::new().read(true).write(true).open(format!("/proc/{}/mem", self.pid)).map_err(|e| format!("reopen mem: {}", e))?;
                 self.execd = true;
+                self.plant_breakpoints()?;
             }
             libc::PTRACE_EVENT_FORK | libc::PTRACE_EVENT_VFORK => bail!("tracee forked a process: unsupported"),
             _ => {}
@@ -890,6 +964,7 @@ impl<'a> Sup<'a> {
                 Stop::Signal(s) => {
                     sig = s;
                 }
+                Stop::Breakpoint(_) => bail!("breakpoint hit while waiting for a system call to return"),
             }
         }
     }
@@ -1133,6 +1208,14 @@ impl<'a> Sup<'a> {
                         inj = 3;
                         self.fault_hits[k] += 1;
                     }
+                    Action::Hold => {
+                        if self.fault_hits[k] == 0 {
+                            self.fault_hits[k] = 1;
+                            self.th[i].st = St::Held;
+                            self.events.push(Ev { idx, th: i, name: "HOLD".into(), path: proto.rel2.clone().or(proto.rel.clone()), path2: None, rel: None, rel2: None, fd: -1, fd2: -1, ino: 0, ino2: 0, a, ret: 0, inj: 0 });
+                            return Ok(false);
+                        }
+                    }
                     Action::Clamp(c) => {
                         let mut regs = getregs(tid)?;
                         let cur = match n {
@@ -1285,7 +1368,11 @@ impl<'a> Sup<'a> {
         self.th[i].st = St::Running;
         self.th[i].yielded = false;
         let tid = self.th[i].tid;
-        if self.th[i].at_entry {
+        if self.th[i].at_bp.is_some() {
+            if !self.step_over_breakpoint(i, idx)? {
+                return Ok(());
+            }
+        } else if self.th[i].at_entry {
             if !self.exec_pending(i, idx)? {
                 return Ok(());
             }
@@ -1295,6 +1382,15 @@ impl<'a> Sup<'a> {
             match self.next_stop(i, sig)? {
                 Stop::Dead(status) => {
                     self.thread_died(i, status)?;
+                    return Ok(());
+                }
+                Stop::Breakpoint(addr) => {
+                    let mut regs = getregs(tid)?;
+                    regs.rip = addr;
+                    setregs(tid, &regs)?;
+                    self.th[i].at_bp = Some(addr);
+                    self.th[i].at_entry = false;
+                    self.th[i].st = St::Ready;
                     return Ok(());
                 }
                 Stop::Syscall => {
@@ -1453,6 +1549,14 @@ impl<'a> Sup<'a> {
             }
             let mut enabled: Vec<usize> = (0..self.th.len()).filter(|&j| self.th[j].st == St::Ready).collect();
             if enabled.is_empty() {
+                // a held thread is released when nothing else can run
+                let held: Vec<usize> = (0..self.th.len()).filter(|&j| self.th[j].st == St::Held).collect();
+                for j in held {
+                    self.th[j].st = St::Ready;
+                    enabled.push(j);
+                }
+            }
+            if enabled.is_empty() {
                 // time only advances when nothing else can run
                 let mut timed: Vec<(u64, usize)> = vec![];
                 for (j, t) in self.th.iter().enumerate() {
@@ -1608,6 +1712,8 @@ pub fn execute(l: &Launch, spec: &RunSpec) -> Result<RunResult, String> {
         kernel_blocked: None,
         cwd_rel,
         stash: HashMap::new(),
+        bps: HashMap::new(),
+        base: 0,
     };
     let _ = &s.cwd_rel;
     s.add_thread(pid, vec![0], 0);
